@@ -4,6 +4,7 @@ CONSTANTS
   Calls <- I2
   FixIdle = TRUE
   FixStop = FALSE
+  FixOrder = TRUE
   FixWake = TRUE
   CallTimeouts = TRUE
 INVARIANTS ProviderPolls
